@@ -97,3 +97,13 @@ CODEGEN_PLAN = [
          'subst': [('Result<Self, Self::Error>', 'Result<char, AnyhowError>')]},
     ]},
 ]
+
+# extra runtime items the generated code mentions (only passed through by the closure-free functions)
+G_RUNTIME_EXTRA = [
+    {'file': 'runtime/src/trace.rs', 'items': [
+        {'kind': 'type', 'match': r'^pub trait ParseTracer: Clone \+ Copy$'},
+    ]},
+    {'file': 'runtime/src/global.rs', 'items': [
+        {'kind': 'type', 'match': r'^pub struct ParseGlobal<TT: ParseTracer, TC, TUD>$'},
+    ]},
+]
